@@ -2,7 +2,11 @@
 
 package streampool
 
-import "sort"
+import (
+	"sort"
+
+	"storj.io/drpc"
+)
 
 // VerifPoolState is a copy of the pool's indexes for the simulator's oracles (build tag verif only).
 type VerifPoolState struct {
@@ -11,6 +15,7 @@ type VerifPoolState struct {
 	ByTag    map[string][]uint32
 	Tags     map[uint32][]string
 	QueueLen map[uint32]int
+	Objs     map[uint32]drpc.Stream
 	Opening  []string
 }
 
@@ -18,11 +23,12 @@ type VerifPoolState struct {
 func (s *streamPool) VerifState() VerifPoolState {
 	s.mu.Lock()
 	defer s.mu.Unlock()
-	st := VerifPoolState{ByPeer: map[string][]uint32{}, ByTag: map[string][]uint32{}, Tags: map[uint32][]string{}, QueueLen: map[uint32]int{}}
+	st := VerifPoolState{ByPeer: map[string][]uint32{}, ByTag: map[string][]uint32{}, Tags: map[uint32][]string{}, QueueLen: map[uint32]int{}, Objs: map[uint32]drpc.Stream{}}
 	for id, x := range s.streams {
 		st.Streams = append(st.Streams, id)
 		st.Tags[id] = append([]string{}, x.tags...)
 		st.QueueLen[id] = x.queue.Len()
+		st.Objs[id] = x.stream
 	}
 	sort.Slice(st.Streams, func(i, j int) bool { return st.Streams[i] < st.Streams[j] })
 	for k, v := range s.streamIdsByPeer {
